@@ -864,7 +864,7 @@ func (p *Proc) callInline(ec *ectx, fi *FuncInfo, fn *types.Func, sig *types.Sig
 		fr.rets = append(fr.rets, s)
 	}
 	p.frames = p.frames[:len(p.frames)-1]
-	ms := p.merge(fr.rets)
+	ms := p.mergeForce(fr.rets)
 	if len(ms) == 0 {
 		p.kill(st)
 		return p.zeroTuple(sig.Results())
